@@ -211,6 +211,10 @@ class ExprCanon(ast.NodeTransformer):
             else:
                 vals.append(v)
         node.values = vals
+        if len(vals) == 1 and isinstance(vals[0], ast.Constant) and isinstance(vals[0].value, str):
+            return vals[0]  # an f-string without fields is a plain string
+        if not vals:
+            return _loc(ast.Constant(value=""), node)
         return node
 
     def visit_Subscript(self, node):
@@ -715,7 +719,7 @@ def canon_block(stmts):
     stmts = _split_tuple_assigns(stmts)
     stmts = _fold_dict_stores(stmts)
     stmts = _fold_list_appends(stmts)
-    stmts = [_merge_arms(s) if isinstance(s, ast.If) else s for s in stmts]
+    stmts = [_merge_arms(_table_dispatch(s)) if isinstance(s, ast.If) else s for s in stmts]
     stmts = _loops_to_comprehensions(stmts)
     # from the end: `if c: A(exits)` + rest -> if c: A else: rest
     res = []
@@ -857,6 +861,37 @@ def _bool_if_deep(s):
         s.body = [_bool_if_deep(x) for x in s.body]
         s.orelse = [_bool_if_deep(x) for x in s.orelse]
     return _bool_if(s)
+
+
+def _table_dispatch(s):
+    """`if {k: f, ..}.get(V) is not None: {k: f, ..}.get(V)(args)` -> `if V in {k: f, ..}: {k: f, ..}[V](args)`
+    (a literal table whose values are names: a name in a dispatch table is taken to be a function, never None)"""
+    t = s.test
+    if not (isinstance(t, ast.Compare) and len(t.ops) == 1 and isinstance(t.ops[0], (ast.IsNot, ast.Is)) and isinstance(t.comparators[0], ast.Constant) and t.comparators[0].value is None):
+        return s
+    if isinstance(t.ops[0], ast.Is):
+        # `if T.get(V) is None: A else: B`  ==  `if T.get(V) is not None: B else: A`
+        if not s.orelse:
+            return s
+        flipped = _loc(ast.If(test=_loc(ast.Compare(left=t.left, ops=[ast.IsNot()], comparators=t.comparators), t), body=s.orelse, orelse=s.body), s)
+        r = _table_dispatch(flipped)
+        return r if isinstance(r.test, ast.Compare) and isinstance(r.test.ops[0], ast.In) else s
+    g = t.left
+    if not (isinstance(g, ast.Call) and isinstance(g.func, ast.Attribute) and g.func.attr == "get" and isinstance(g.func.value, ast.Dict) and len(g.args) == 1 and not g.keywords and isinstance(g.args[0], ast.Name)):
+        return s
+    d = g.func.value
+    if not d.keys or not all(isinstance(k, ast.Constant) and isinstance(k.value, str) for k in d.keys) or not all(isinstance(v, (ast.Name, ast.Attribute)) for v in d.values):
+        return s
+    key = _dump(g)
+    calls = [n for st in s.body for n in ast.walk(st) if isinstance(n, ast.Call) and _dump(n.func) == key]
+    if not calls:
+        return s
+    if any(isinstance(n, ast.Name) and n.id == g.args[0].id and isinstance(n.ctx, (ast.Store, ast.Del)) for st in s.body for n in ast.walk(st)):
+        return s
+    for c in calls:
+        c.func = _loc(ast.Subscript(value=copy.deepcopy(d), slice=copy.deepcopy(g.args[0]), ctx=ast.Load()), c.func)
+    s.test = _loc(ast.Compare(left=g.args[0], ops=[ast.In()], comparators=[d]), t)
+    return s
 
 
 def _strip_tail_returns(stmts):
@@ -1378,9 +1413,9 @@ def canonicalise(tree):
     from .casesplit import split_cases
 
     tree = _canonicalise_once(tree)
-    before = sum(1 for n in ast.walk(tree) if isinstance(n, ast.If))
+    before = ast.dump(tree)
     tree = split_cases(tree)
-    if sum(1 for n in ast.walk(tree) if isinstance(n, ast.If)) != before:
+    if ast.dump(tree) != before:
         tree = _canonicalise_once(tree)
     return tree
 
